@@ -409,6 +409,14 @@ func runPair(r *vh.Rng, directed int) *pairScen {
 		k := 2 + r.Intn(6)
 		for i := 1; i <= k; i++ {
 			sc.csSent = append(sc.csSent, 100+i)
+			// payloads are the application's: some use the words of SHIP messages as key or value
+			word := shipWords[(i+k)%len(shipWords)]
+			if i%3 == 1 {
+				cl.writer.WriteShipMessageWithPayload([]byte(fmt.Sprintf(`{"datagram":{"n":%d,"%s":{"phase":"announce"}}}`, 100+i, word)))
+				sc.scSent = append(sc.scSent, 200+i)
+				sv.writer.WriteShipMessageWithPayload([]byte(fmt.Sprintf(`{"datagram":{"n":%d,"note":"%s"}}`, 200+i, word)))
+				continue
+			}
 			cl.writer.WriteShipMessageWithPayload([]byte(fmt.Sprintf(`{"datagram":{"n":%d}}`, 100+i)))
 			sc.scSent = append(sc.scSent, 200+i)
 			sv.writer.WriteShipMessageWithPayload([]byte(fmt.Sprintf(`{"datagram":{"n":%d}}`, 200+i)))
